@@ -626,8 +626,10 @@ path = "src/lib.rs""#
             added_crates.insert("tokio");
         }
 
-        // Add dependencies from rust:: imports
-        for (crate_name, version_spec) in &self.rust_crate_deps {
+        // Add dependencies from rust:: imports (sorted by name: the map's iteration order differs between processes)
+        let mut rust_crate_deps: Vec<_> = self.rust_crate_deps.iter().collect();
+        rust_crate_deps.sort_by(|a, b| a.0.cmp(b.0));
+        for (crate_name, version_spec) in rust_crate_deps {
             // Skip if already added above
             if added_crates.contains(crate_name.as_str()) {
                 continue;
